@@ -22,7 +22,7 @@ What is read (all through vlib.common.REPO, so VERIF_REPO works):
   (b) file-system mutations (`fs::write/rename/remove*/create_dir*/copy/set_permissions`, `OpenOptions`,
       `File::create`, `symlink`) in reachable functions with the REVIEWED path root of their target
       (REVIEWED_WRITES pins the argument text; an unreviewed or changed site gets root `other`), and the gate
-      `managedHooksMode` for sites that are only reachable through `maybe_spawn_repo_hook_self_heal`
+      `managedHooksMode` for sites that are only reachable through `maybe_spawn_repo_hook_self_heal` / `maybe_restore_stale_rebase_hooks`
       (whose first statement must be the `is_repo_hooks_enabled` early return).
   (c) every `process::exit` / `process::abort` site of git_handlers.rs, commands/hooks/*.rs and of every other
       reachable function, with its argument, enclosing fn, phases and whether an `eprintln!` precedes it.
@@ -530,6 +530,9 @@ src/commands/git_hook_handlers.rs::write_config#0 | create_dir_all | parent | gi
 src/commands/git_hook_handlers.rs::write_config#1 | write | path | gitConfig
 src/commands/git_hook_handlers.rs::save_repo_hook_state#0 | create_dir_all | parent | repoAiDir
 src/commands/git_hook_handlers.rs::save_repo_hook_state#1 | write | path | repoAiDir
+src/commands/git_hook_handlers.rs::delete_state_file#0 | remove_file | path | repoAiDir
+src/commands/git_hook_handlers.rs::restore_rebase_hooks_for_repo#0 | remove_file | &hook_path | hooksDir
+src/commands/git_hook_handlers.rs::restore_rebase_hooks_for_repo#1 | rename | masked_path | hooksDir
 src/commands/git_hook_handlers.rs::remove_hook_entry#0 | remove_dir_all | hook_path | hooksDir
 src/commands/git_hook_handlers.rs::remove_hook_entry#1 | remove_file | hook_path | hooksDir
 src/commands/git_hook_handlers.rs::ensure_repo_hooks_installed#0 | create_dir_all | &managed_hooks_dir | hooksDir
@@ -625,7 +628,63 @@ def extract():
     k_heal = ix.find("src/commands/git_hook_handlers.rs", "maybe_spawn_repo_hook_self_heal")
     if not re.match(r"^if !is_repo_hooks_enabled\(repo\) \{ return; \}", PT.squash(ix.body(k_heal))):
         problems.append("maybe_spawn_repo_hook_self_heal: first statement is no longer the is_repo_hooks_enabled early return")
-    WITHOUT_HEAL = ix.reach([k_handle], stop=frozenset([k_heal]))
+    # Second entry into managed-hooks-mode code (bdec53b6): `ensure_repo_level_hooks_for_checkpoint` calls
+    # `maybe_restore_stale_rebase_hooks` in front of the self-heal. It returns at once unless rebase_hook_mask_state.json exists, and
+    # that file is written by `maybe_enable_rebase_hook_mask` only, which only the managed pre-rebase hook (`run_managed_hook`, never
+    # reachable from handle_git) calls: in wrapper mode the sites behind it cannot execute. Each of these facts is checked here.
+    HH = "src/commands/git_hook_handlers.rs"
+    k_stale = ix.find(HH, "maybe_restore_stale_rebase_hooks")
+    if not re.match(r"^let state_path = rebase_hook_mask_state_path\(repo\); if !state_path\.exists\(\) \{ return; \}", PT.squash(ix.body(k_stale))):
+        problems.append("maybe_restore_stale_rebase_hooks: first statements are no longer the `rebase_hook_mask_state_path(repo).exists()` early return")
+    hh_text, hh_mask = ix.texts[HH]
+
+    def callers_of(name):
+        out = set()
+        for m in re.finditer(r"(?<![\w.])" + re.escape(name) + r"\s*\(", hh_text):
+            if hh_mask[m.start()] or re.search(r"\bfn\s+$", hh_text[max(0, m.start() - 8):m.start()]):
+                continue
+            k = ix.fn_at(HH, m.start())
+            out.add(ix.fns[k]["name"] if k is not None else None)
+        return out
+    for rel, (text, mask) in ix.texts.items():
+        if rel != HH and re.search(r"\b(save_rebase_hook_mask_state|maybe_enable_rebase_hook_mask|delete_state_file|restore_rebase_hooks_for_repo)\s*\(", text):
+            problems.append(f"{rel}: calls a rebase-hook-mask helper of git_hook_handlers.rs")
+    if callers_of("save_rebase_hook_mask_state") != {"maybe_enable_rebase_hook_mask"}:
+        problems.append(f"save_rebase_hook_mask_state is called from {sorted(map(str, callers_of('save_rebase_hook_mask_state')))} (expected maybe_enable_rebase_hook_mask only)")
+    if callers_of("maybe_enable_rebase_hook_mask") != {"run_managed_hook"}:
+        problems.append(f"maybe_enable_rebase_hook_mask is called from {sorted(map(str, callers_of('maybe_enable_rebase_hook_mask')))} (expected run_managed_hook only)")
+    if ix.find(HH, "run_managed_hook") in ALL:
+        problems.append("run_managed_hook became reachable from handle_git: the rebase-hook-mask state is no longer a managed-hooks-mode artefact")
+    if callers_of("restore_rebase_hooks_for_repo") - {"maybe_restore_stale_rebase_hooks", "force_restore_rebase_hooks"}:
+        problems.append("restore_rebase_hooks_for_repo has a caller other than maybe_restore_stale_rebase_hooks / force_restore_rebase_hooks")
+    if callers_of("force_restore_rebase_hooks") - {"run_managed_hook"}:
+        problems.append("force_restore_rebase_hooks is called outside run_managed_hook")
+    # review of `delete_state_file(path)` = repoAiDir: every caller passes one of the three state paths under <git dir>/ai
+    for m in re.finditer(r"(?<![\w.])delete_state_file\s*\(\s*([^,]+),", hh_text):
+        if hh_mask[m.start()] or re.search(r"\bfn\s+$", hh_text[max(0, m.start() - 8):m.start()]):
+            continue
+        if m.group(1).strip() not in ("&state_path", "&enablement_path", "&rebase_state_path"):
+            problems.append(f"delete_state_file is called on `{m.group(1).strip()}` (reviewed: the repo hook state / enablement / rebase mask state paths only)")
+    for var, helper in (("state_path", r"(?:repo_state_path|rebase_hook_mask_state_path)"), ("enablement_path", "repo_enablement_path"), ("rebase_state_path", "rebase_hook_mask_state_path")):
+        for fname in ("remove_repo_hooks", "restore_rebase_hooks_for_repo"):
+            b = PT.squash(ix.body(ix.find(HH, fname)))
+            for lm in re.finditer(r"let " + var + r" = ([^;]*);", b):
+                if not re.fullmatch(helper + r"\(repo\)", lm.group(1).strip()):
+                    problems.append(f"{fname}: `{var}` is bound to `{lm.group(1).strip()}`")
+    for helper, base in (("repo_state_path", "repo_ai_dir"), ("repo_enablement_path", "repo_ai_dir"), ("rebase_hook_mask_state_path", "repo_worktree_ai_dir"),
+                         ("managed_git_hooks_dir_for_repo", "repo_ai_dir")):
+        if not re.fullmatch(base + r"\(repo\)\.join\([A-Z_]+\)", PT.squash(ix.body(ix.find(HH, helper)))):
+            problems.append(f"{helper}: is no longer `{base}(repo).join(<constant>)`")
+    # review of the two sites of restore_rebase_hooks_for_repo = hooksDir: the directory is the one recorded by maybe_enable_rebase_hook_mask
+    # (managed_git_hooks_dir_for_repo) or that same function; ASSUMES rebase_hook_mask_state.json holds what git-ai wrote
+    rb = PT.squash(ix.body(ix.find(HH, "restore_rebase_hooks_for_repo")))
+    if not ("let managed_hooks_dir = if !state.managed_hooks_path.trim().is_empty() { PathBuf::from(state.managed_hooks_path.trim()) } else { managed_git_hooks_dir_for_repo(repo) };" in rb
+            and "let hook_path = managed_hooks_dir.join(hook_name);" in rb and "let masked_path = rebase_masked_hook_path(&managed_hooks_dir, hook_name);" in rb):
+        problems.append("restore_rebase_hooks_for_repo: the restored paths are no longer <managed hooks dir>/<hook name>")
+    eb = PT.squash(ix.body(ix.find(HH, "maybe_enable_rebase_hook_mask")))
+    if not ("let managed_hooks_dir = managed_git_hooks_dir_for_repo(repo);" in eb and "managed_hooks_path: managed_hooks_dir.to_string_lossy().to_string()," in eb):
+        problems.append("maybe_enable_rebase_hook_mask: no longer records managed_git_hooks_dir_for_repo(repo) as managed_hooks_path")
+    WITHOUT_HEAL = ix.reach([k_handle], stop=frozenset([k_heal, k_stale]))
 
     def phases(k, in_spawn=False):
         return {"prologue": k in PROLOGUE, "pre": k in PRE, "post": k in POST, "thread": k in THREAD or in_spawn}
